@@ -14,7 +14,7 @@ RULE = ("random programs p (full model); for each: reflexivity, equality with th
         "distinct = (program, mutant)")
 ASSUMPTIONS = ["model-level 'meaning or declarations differ' = declarations with slice defaults made explicit, body meaning "
                "unexpanded, macro meanings with parameters named by position (unused parameter renames are equivalent mutants)"]
-TIERS = {"quick": {"shards": 8, "budget_s": 90}, "thorough": {"shards": 16, "budget_s": 420}}
+TIERS = {"quick": {"shards": 8, "budget_s": 180}, "thorough": {"shards": 16, "budget_s": 420}}
 REQUIRE = {"programs-with-a-huge-constant-and-two-imports": 300, "same-text-parsed-after-a-near-twin": 1500, "programs-with-near-twin-statements": 300, "mutant-pairs-judged": 8000, "meaning-changing-mutants": 5000, "equivalent-mutants": 50, "layout-pairs": 300,
            "roundtrip-pairs": 300, "independent-pairs": 300, "eq:Circuit:True": 100, "eq:Circuit:False": 1000,
            "eq:GateStatement:False": 100, "eq:BlockStatement:False": 100, "eq:LoopStatement:False": 20, "eq:Register:False": 20,
